@@ -94,6 +94,8 @@ class Chooser:
         self.feas_timeout_ms = feas_timeout_ms
         self.feas_checks = 0
         self._solver = None
+        self._solver_pc = None
+        self._solver_n = 0
 
     def next_path(self) -> bool:
         if not self.pending:
@@ -112,19 +114,28 @@ class Chooser:
 
     def feasible(self, pc, extra) -> bool:
         """Pruning only: quantified assumptions are left out (fewer constraints can only keep more paths), so an
-        infeasible path that needs them is explored and its obligations hold vacuously."""
+        infeasible path that needs them is explored and its obligations hold vacuously.
+        One incremental solver per path: the path condition only grows, so conjuncts are added once."""
         self.feas_checks += 1
-        s = z3.Solver()
-        s.set('timeout', self.feas_timeout_ms)
-        for a in self.axioms:
-            if not _has_quantifier(a):
-                s.add(a)
-        for p in pc:
+        s = self._solver
+        if s is None or self._solver_pc is not pc or self._solver_n > len(pc):
+            s = z3.Solver()
+            s.set('timeout', self.feas_timeout_ms)
+            for a in self.axioms:
+                if not _has_quantifier(a):
+                    s.add(a)
+            self._solver, self._solver_pc, self._solver_n = s, pc, 0
+        for p in pc[self._solver_n:]:
             if not _has_quantifier(p):
                 s.add(p)
-        if not _has_quantifier(extra):
-            s.add(extra)
-        return s.check() != z3.unsat
+        self._solver_n = len(pc)
+        if _has_quantifier(extra):
+            return True
+        s.push()
+        s.add(extra)
+        r = s.check()
+        s.pop()
+        return r != z3.unsat
 
     def choose(self, st: PathState, options: list, label: str) -> int:
         """options: list of z3 Bool conditions (or None for unconditional). Returns the index taken and assumes its condition."""
